@@ -14,16 +14,20 @@ import framework
 def run(ctx):
     core_mod.run(ctx, 'C02')
     refire_cases(ctx)
+    bigpass_cases(ctx)
 
 
 def search(ctx):
     core_mod.run(ctx, 'C02')
     refire_cases(ctx)
+    bigpass_cases(ctx)
 
 
 def replay(ctx, case):
     if case.get('kind') == 'refire':
         check_refire(ctx, case)
+    elif case.get('kind') == 'bigpass':
+        check_bigpass(ctx, case)
     else:
         core_mod.replay(ctx, 'C02', case)
 
@@ -138,3 +142,88 @@ def check_refire(ctx, case):
             i = j
     if ndisp != fires:
         ctx.violate(case, 'dispatch-count(refire)', f'fired {fires} times, dispatched {ndisp} times (by event object): passes {passes}')
+
+
+# ---------------------------------------------------------------------------------------------------------------------
+# directed, implementation-only: passes far larger than the random programs reach.  C02 quantifies over "every program of
+# fire(priority=p) calls"; the theorems have no size bound, but whether the code really takes *everything that was queued
+# when the pass began* into one pass (and not, say, the first thousand) only shows when that many events are queued.
+# ---------------------------------------------------------------------------------------------------------------------
+
+BIG_N = [3, 40, 700, 1500, 5000]
+
+
+def bigpass_cases(ctx):
+    for n in BIG_N + ([20000] if ctx.scale > 1 else []):
+        for where in ('outside', 'handler'):
+            for mix in ('late-urgent', 'grid'):
+                check_bigpass(ctx, {'kind': 'bigpass', 'n': n, 'where': where, 'mix': mix, 'seed': ctx.rng.randrange(10 ** 6)})
+
+
+def run_bigpass(case):
+    """-> (order of dispatch as fire indices, expected order, escaped)"""
+    import random
+    framework.setup_import_path()
+    from circuits import BaseComponent, Event, handler
+    n, where, mix = case['n'], case['where'], case['mix']
+    r = random.Random(case['seed'])
+    if mix == 'late-urgent':
+        prios = [0] * n + [-1, -0.5, 2.5, 0]       # the urgent ones are fired last
+    else:
+        prios = [r.choice(PRIOS) for _ in range(n + 4)]
+
+    class go(Event):
+        pass
+
+    class item(Event):
+        pass
+
+    seen = []
+
+    class App(BaseComponent):
+        @handler('go')
+        def _on_go(self):
+            for i, p in enumerate(prios):
+                self.fire(item(i), priority=p)
+
+        @handler('item')
+        def _on_item(self, i):
+            seen.append(i)
+
+    app = App()
+    escaped = None
+    try:
+        if where == 'outside':
+            for i, p in enumerate(prios):
+                app.fire(item(i), priority=p)
+        else:
+            app.fire(go())
+            app.flush()           # the pass that runs the handler; the items are queued for the next pass
+        app.flush()               # ONE pass: everything that was queued when it began
+        first_pass = list(seen)
+        k = 0
+        while len(app) and k < 100:
+            app.flush()
+            k += 1
+    except BaseException as e:  # noqa: BLE001
+        escaped = type(e).__name__
+        first_pass = list(seen)
+    want = [i for _p, i in sorted((p, i) for i, p in enumerate(prios))]
+    return first_pass, list(seen), want, escaped
+
+
+def check_bigpass(ctx, case):
+    with ctx.guard(case, what='Manager.flush() of one large pass'):
+        first, allseen, want, escaped = run_bigpass(case)
+    size = 'n>1000' if case['n'] > 1000 else 'small'
+    ctx.count('bigpass', f"n={case['n']}:{case['where']}:{case['mix']}")
+    ctx.case(case, nontrivial=case['n'] > 3)
+    if escaped:
+        ctx.violate(case, f'loop-died({escaped};{size})', f'{escaped} left flush() with {case["n"]} events queued')
+        return
+    if first != want:
+        j = next((k for k, (a, b) in enumerate(zip(first, want)) if a != b), min(len(first), len(want)))
+        ctx.violate(case, f'pass-order(big-pass;{size})',
+                    f"{case['n'] + 4} events queued before one flush pass ({case['where']}): dispatch #{j} of the pass was event "
+                    f"{first[j] if j < len(first) else None}, expected {want[j] if j < len(want) else None} "
+                    f"(ascending priority, then firing order); the pass dispatched {len(first)} of {len(want)}")
